@@ -13,6 +13,7 @@ import (
 	"os/exec"
 	"path/filepath"
 	"regexp"
+	"strconv"
 	"strings"
 	"time"
 )
@@ -290,6 +291,52 @@ func checkC14(e *Env, r *Report) {
 			"input": j.log, "output": out, "exit": r1.Exit, "stable": stable, "garbled": garbled}
 		_ = os.Remove(p)
 	})
+	// bulk logs: thousands of distinct records, one of them repeated far apart (whatever is done in batches, buffers
+	// or chunks of a fixed size has its boundary somewhere in there)
+	nBulk := 0
+	for bi, total := range []int{6000, 9500} {
+		for _, mode := range []string{"raw", "default"} {
+			var b strings.Builder
+			repeatAt := map[int]bool{3000: true, 5000: true, total - 1: true, 4096: true, 8192: true}
+			distinct := 0
+			for k := 0; k < total; k++ {
+				cid := fmt.Sprintf("c%d", 100000+k)
+				if repeatAt[k] {
+					cid = "c100000" // the first record again (other timestamp, other pid)
+				} else {
+					distinct++
+				}
+				b.WriteString(fmt.Sprintf(`type=AVC msg=audit(1800%06d.%03d:%d): apparmor="DENIED" operation="open" class="file" profile="bulk" name="/vm/%s/file" pid=%d comm="mk_%s_x" requested_mask="r" denied_mask="r" fsuid=1000 ouid=1000`, k, k%1000, k, cid, 1000+k, cid) + "\n")
+			}
+			p := filepath.Join(dir, fmt.Sprintf("bulk-%d-%s.log", bi, mode))
+			_ = os.WriteFile(p, []byte(b.String()), 0o644)
+			args := []string{"-f", p}
+			if mode == "raw" {
+				args = append(args, "-R")
+			}
+			run := runAaLog(e, args...)
+			shown, rep, last, inorder := 0, 0, -1, true
+			for _, line := range strings.Split(run.Stdout, "\n") {
+				m := reMarker.FindStringSubmatch(line)
+				if m == nil {
+					continue
+				}
+				shown++
+				n, _ := strconv.Atoi(strings.TrimPrefix(m[1], "c"))
+				if n == 100000 {
+					rep++
+				}
+				if n < last {
+					inorder = false
+				}
+				last = n
+			}
+			recs = append(recs, map[string]any{"ev": "bulk", "id": fmt.Sprintf("bulk|%d records|%s", total, mode), "exit": run.Exit, "distinct": distinct, "shown": shown, "repeatedshown": rep, "inorder": inorder})
+			_ = os.Remove(p)
+			nBulk++
+		}
+	}
+	r.Coverage["bulk_logs"] = nBulk
 	r.Coverage["aa_log_runs"] = len(jobs) * 3
 	r.Sample(recs[0])
 	r.Sample(recs[len(recs)-1])
